@@ -68,6 +68,7 @@ class P(Process):
         else:
             self.ts_const = ctx.int('tsc', 1, B) if mode == 'const' else None
         self.c_const = ctx.flag('cc') if cond == 'const' else None
+        self.path = (name,)  # hierarchy path of this process
         self.polls = []      # dict(g, front, ts, cond, call)
         self.ncalls = []     # dict(k, ts, g, start, d, end, force, poll)
         self._last_poll = None
@@ -86,7 +87,7 @@ class P(Process):
         run.clock.append(('poll', g))
         ts = self.ts_const if self.mode == 'const' else \
             run.ctx.int('ts', 1, self.B)
-        front = e.front[(self.name,)]['time'] if (self.name,) in e.front else g
+        front = e.front[self.path]['time'] if self.path in e.front else g
         self._last_poll = dict(g=g, front=front, ts=ts, cond=None, call=None,
                                call_index=run.call_index,
                                pass_index=len(run.passes[-1]) - 1
@@ -115,7 +116,7 @@ class P(Process):
         k = len(self.ncalls)
         d = run.ctx.int('d', *self.dr)
         call = run.calls[run.call_index]
-        start = e.front[(self.name,)]['time']
+        start = e.front[self.path]['time']
         rec = dict(k=k, ts=timestep, g=g, start=start, d=d,
                    end=call['end'], force=call['force'],
                    call_index=run.call_index, poll=self._last_poll,
@@ -176,12 +177,23 @@ def build(ctx, cfg):
     if cfg.get('precision') is not None:
         kwargs['global_time_precision'] = cfg['precision']
     topology = {n: {'s': ('s',)} for n in names}
+    processes = dict(run.procs)
+    if cfg.get('nested') and N >= 2:
+        # the last process lives in a compartment and reaches the shared
+        # store with a '..' wiring
+        last = names[-1]
+        run.procs[last].path = ('comp', last)
+        del processes[last]
+        del topology[last]
+        processes['comp'] = {last: run.procs[last]}
+        topology['comp'] = {last: {'s': ('..', 's')}}
+        ctx.goal('a process nested in a compartment')
     if N == 0:
         # "no processes at all": a composite of one step only
         kwargs['steps'] = {'st': NullStep()}
         kwargs['flow'] = {'st': []}
         topology['st'] = {'s': ('s',)}
-    e = Engine(processes=dict(run.procs), topology=topology,
+    e = Engine(processes=processes, topology=topology,
                emitter={'type': 'vsym_rec'}, display_info=False, **kwargs)
     run.engine = e
     K = cfg['K']
